@@ -90,8 +90,9 @@ CLAIMED = {
              "contributions; invariant under permutation of the stored points, hence (with the ingestion model) independent of the "
              "add order; merging the sorted storage again changes nothing. The model is tied to the real StoG by an op-sequence "
              "correspondence compared after every add_dataset/merge_data (bit-exact). Float-only effect (0.1+0.2 != 0.3 splitting a "
-             "bin) is covered by the Float reading + oracle.", ref="8 (C10), 5",
-             tech="Lean 4 theorems on a hand-written model (fold invariant, Finset.sort, List.Perm) + op-sequence correspondence"),
+             "bin) is covered by the Float reading + oracle."
+             " SECOND TIE (this property's part of stog.py is also *regenerated* on every run by tools/translate_stog.py and proved equal to the hand model; when the translator refuses a construct the check falls back to hand model + correspondence and says so in the evidence): Refine/Merge.lean: the generated merge_data (sort block, five-variable loop as a left fold with the loop body as a named step function, closing append, post-merge options, write-back) = Stog.mergeData for every non-empty storage, by a fold invariant (run open iff count >= 1 iff previous abscissa set) that also discharges the translator's two guarded Option coercions; empty storage raises ValueError. Props/C10Gen transports grid / mean / idempotence to the generated code.", ref="8 (C10), 5",
+             tech="refinement of code generated from stog.py (fold invariant) + Lean 4 theorems on a hand-written model (fold invariant, Finset.sort, List.Perm) + op-sequence correspondence"),
  "C11": dict(text="Theorems on the hand model of add_dataset (crop and conversions delegated to the generated code): ingestion is "
              "history-free (storage = concatenation of per-dataset rows), both arrays carry the same Q row after any sequence "
              "(invariant by induction), no stored point outside the global window, S(Q) row = generated conversion of the raw row with "
@@ -99,12 +100,14 @@ CLAIMED = {
              "stored whole. Full statement (P_stored_spec): for every well-formed dataset the stored as-given rows are, as a list of "
              "(Q, y, dy) triples in order and with multiplicity, exactly the rounded input rows inside the per-dataset window, each "
              "adjusted (scale, offset, Q shift, 0.01 lattice), then those inside the global window; hence no point inside both windows "
-             "is lost, none is invented, the columns stay aligned (which discharges the premise of C10's order-independence theorem).", ref="8 (C11), 5, 23",
-             tech="Lean 4 theorems on a hand-written model + generated code; op-sequence correspondence; recomputation oracle"),
+             "is lost, none is invented, the columns stay aligned (which discharges the premise of C10's order-independence theorem)."
+             " SECOND TIE (this property's part of stog.py is also *regenerated* on every run by tools/translate_stog.py and proved equal to the hand model; when the translator refuses a construct the check falls back to hand model + correspondence and says so in the evidence): Refine/Ingest.lean (every scalar type): the generated add_dataset appends to both arrays exactly Stog.datasetRows for each of the four kinds and an absent kind, rejects any other kind with ValueError, and leaves the ingestion settings untouched; lists of datasets by induction. Props/C11Gen transports the full stored-row specification and the alignment invariant to the generated code.", ref="8 (C11), 5, 23",
+             tech="refinement of code generated from stog.py + Lean 4 theorems on a hand-written model + generated code; op-sequence correspondence; recomputation oracle"),
  "C17": dict(text="Theorems on the hand model of the tail of merge_data for all 16 present/absent subsets of the four option keys: stored "
              "Q[S-1] = cF*Q*(aS*mean+bS-1)+dF; stored S = F/Q+1 for Q>0; F = Q(S-1) on the common grid; each absent key == its identity "
-             "value. NaN-freeness is a float statement checked by the oracle.", ref="8 (C17), 5",
-             tech="Lean 4 theorems (case split over Option fields) on a hand-written model + exhaustive-subset correspondence"),
+             "value. NaN-freeness is a float statement checked by the oracle."
+             " SECOND TIE (this property's part of stog.py is also *regenerated* on every run by tools/translate_stog.py and proved equal to the hand model; when the translator refuses a construct the check falls back to hand model + correspondence and says so in the evidence): Same refinement as C10 (Refine/Merge.lean): the generated S(Q)-level and Q[S(Q)-1]-level option handling and the write-back equal Stog.postMerge for all present/absent subsets; Props/C10Gen.P_gen_stored_curves states the two stored-curve formulas for the generated code.", ref="8 (C17), 5",
+             tech="refinement of code generated from stog.py + Lean 4 theorems (case split over Option fields) on a hand-written model + exhaustive-subset correspondence"),
  "C20": dict(text="Theorems on the hand model of Pre_Proc.rebin (bit-exact against the real code in the correspondence): grid = xmin+k*xdiv, "
              "k < floor((xmax-xmin)/xdiv)+1, within [xmin,xmax]; the weight of an in-range point in bin k is the hat function "
              "max(0,1-|x-g_k|/xdiv) (so exactly the points within one bin width count); each bin is numerator/weight with both as sums "
@@ -118,23 +121,26 @@ CLAIMED = {
              "the file starts with the row count, then one comment line, then exactly that many rows; reading back (skip 2, drop #, "
              "split at the blank) returns the rows in order. np.loadtxt's text->nearest-double step is outside the model; the one-ulp "
              "effect it causes for 4096<=|v|<8192 is a recorded known finding (F9a). Re-ingestion of a written S(Q) is checked by the "
-             "oracle on the real code.", ref="8 (C18), 5",
-             tech="Lean 4 theorems (digit round trips, rational rounding bound) on a hand-written model + byte-exact correspondence (partial)"),
+             "oracle on the real code."
+             " SECOND TIE (this property's part of stog.py is also *regenerated* on every run by tools/translate_stog.py and proved equal to the hand model; when the translator refuses a construct the check falls back to hand model + correspondence and says so in the evidence): Props/C18Gen: for the eight generated write_out_* methods the writer table (dictionary pair, title, default name = stem + extension, explicit name wins, KeyError when the curve is absent, nothing else changed).", ref="8 (C18), 5",
+             tech="writer table on code generated from stog.py + Lean 4 theorems (digit round trips, rational rounding bound) on a hand-written model + byte-exact correspondence (partial)"),
  "C12": dict(text="Theorems on the hand-written workflow state machine whose numeric content is the generated code: each step stores the "
              "named Transformer/FourierFilter/Converter call with the option dictionary the code builds; no step overwrites the "
              "merged curve (frame); filter before = filter after the explicit transform; every step is idempotent in every state; by "
              "induction over arbitrary op sequences the curves '<rsf> Merged', 'FT term', 'S(Q) FT', '<rsf> FT' are absent or equal to "
              "a fixed function of (merged S(Q), settings). The weight is on the correspondence: random op sequences on the real StoG, "
-             "all master dictionaries compared after every step.", ref="8 (C12), 5",
-             tech="Lean 4 theorems (invariant by induction over op lists) on a hand-written state machine + op-sequence correspondence"),
+             "all master dictionaries compared after every step."
+             " SECOND TIE (this property's part of stog.py is also *regenerated* on every run by tools/translate_stog.py and proved equal to the hand model; when the translator refuses a construct the check falls back to hand model + correspondence and says so in the evidence): Refine/Workflow.lean (every scalar type, so also at Float where the hand model is compared with the real StoG): explicit refinement equations for the generated transform_merged, fourier_filter (curve stored / not stored), apply_lorch, _add_keen_fq, _add_keen_gr with the files each writes, and a simulation theorem: every operation sequence of the generated code succeeds on a state satisfying the invariant and leaves exactly the named curves of Workflow.run. Props/C12Gen: history independence etc. on the generated code; default titles pairwise distinct; every option dictionary contains the keys its callee reads.", ref="8 (C12), 5",
+             tech="simulation theorem for code generated from stog.py + Lean 4 theorems (invariant by induction over op lists) on a hand-written state machine + op-sequence correspondence"),
  "C19": dict(text="Theorems on the hand model of configuration handling: every given key lands in its setting (Rdelta wins over Rpoints; "
              "Rpoints -> Rmax/Rpoints); each omitted optional key == its default (settings, hence steps and files); invalid "
              "RealSpaceFunction / non-bool LorchFlag / OmittedXrangeCorrection give an error, never a silent default; the CLI runs exactly "
              "the step list of a library drive with the same settings; numpy.arange's length is the ceiling, so the r grid starts at Rmin "
              "with constant step and covers Rmax; flag form defaults. The model is tied to the real code by the correspondence "
              "(attributes, r grid bit for bit, files written by pystog_cli); file *contents* CLI vs library vs defaults-filled-in are "
-             "compared byte for byte by the oracle over enumerated present/absent subsets.", ref="8 (C19), 5",
-             tech="Lean 4 theorems (case analysis over Option fields, floor/ceil arithmetic) on a hand-written model + end-to-end CLI correspondence"),
+             "compared byte for byte by the oracle over enumerated present/absent subsets."
+             " SECOND TIE (this property's part of stog.py is also *regenerated* on every run by tools/translate_stog.py and proved equal to the hand model; when the translator refuses a construct the check falls back to hand model + correspondence and says so in the evidence): Props/C19Gen: the workflow part of pystog_cli is regenerated from cli.py; chaining the step refinements, from a freshly ingested object it succeeds and writes exactly the files of Config.libSteps (S(Q), real-space function, [filter: 3 files], [Lorch], Keen F(Q), Keen G(r)) in that order, the optional steps governed by the instance's cutoff and Lorch flag. __kwargs2attr / parse_cli_args themselves remain hand-modelled.", ref="8 (C19), 5",
+             tech="generated CLI workflow (chained refinements) + Lean 4 theorems (case analysis over Option fields, floor/ceil arithmetic) on a hand-written model + end-to-end CLI correspondence"),
 }
 
 m = {"version": 1, "setup_cmd": "./setup.sh",
@@ -143,8 +149,9 @@ m = {"version": 1, "setup_cmd": "./setup.sh",
                "baseline_off_cmd": "cd /repo && /venv/bin/python -m pytest -ra -q -p no:cacheprovider --timeout=900 --continue-on-collection-errors",
                "source_commits": [], "add_only": True},
      "engines": [{"name": "lean4-proof", "path": "lean/", "serves_properties": sorted(CLAIMED),
-                  "kind_free_text": "Lean 4.33 + Mathlib theorems about a model regenerated from the Python source (tools/translate.py) or written by hand "
-                                    "(lean/PystogVerif/Model), tied to /repo by a differential correspondence run (harness/); ./check <id> orchestrates"}],
+                  "kind_free_text": "Lean 4.33 + Mathlib theorems about a model regenerated from the Python source (tools/translate.py for the algebra modules, "
+                                    "tools/translate_stog.py for the stateful glue of stog.py/cli.py/utils.py) or written by hand (lean/PystogVerif/Model) and proved "
+                                    "equal to the regenerated code (lean/PystogVerif/Refine), tied to /repo by a differential correspondence run (harness/); ./check <id> orchestrates"}],
      "checks": [], "notes": "see DESIGN.md; known_findings.json lists repaired (fixed:) and recorded defects",
      "not_applicable": []}
 for i in ids:
